@@ -306,6 +306,12 @@ class PlanSuite(PipeSuite):
                  ("search:chain", ["--gen", "chain", "--count", "800", "--seed", s], {}),
                  ("search:recover", ["--gen", "recover", "--count", "1500", "--seed", s], {}),
                  ("search:exhaustive<=3sys stride4", ["--gen", "exh", "--count", "4", "--seed", s], {})]
+        # the sequential fall-backs of the crate built without the `parallel` feature (plans must be the same: C19; barriers,
+        # dependencies, exactly-once, the printed plan hold there too)
+        if sspec.get("nopar") and os.path.exists(C.harness_bin(False, False)):
+            n = {"quick": "200", "thorough": "5000"}.get(tier, "800")
+            g.append(("random programs, crate built without the `parallel` feature", ["--gen", "random", "--count", n, "--seed", s], {"parallel": False}))
+            g.append(("funnel programs, crate built without the `parallel` feature", ["--gen", "funnel", "--count", str(int(n) // 4), "--seed", s], {"parallel": False}))
         return g
 
     def shrink(self, case, oracle):
@@ -346,6 +352,7 @@ class ExecSuite(PipeSuite):
                 g.append(("thread-locals inside batches", ["--gen", "kf1", "--count", "25", "--seed", s], {}))
             if sspec.get("nopar") and os.path.exists(C.harness_bin(False, False)):
                 g.append(("random schedules, crate built without the `parallel` feature", ["--gen", "random", "--count", "60", "--seed", s], {"parallel": False}))
+                g.append(("fault injection, crate built without the `parallel` feature", ["--gen", "faults", "--count", "25", "--seed", s], {"parallel": False}))
         elif tier == "thorough":
             g = [("random schedules (free/hold/overlap/jitter)", ["--gen", "random", "--count", "4000", "--seed", s], {}),
                  ("fault injection", ["--gen", "faults", "--count", "1500", "--seed", s], {}),
@@ -354,6 +361,7 @@ class ExecSuite(PipeSuite):
                 g.append(("thread-locals inside batches", ["--gen", "kf1", "--count", "500", "--seed", s], {}))
             if sspec.get("nopar") and os.path.exists(C.harness_bin(False, False)):
                 g.append(("random schedules, crate built without the `parallel` feature", ["--gen", "random", "--count", "1500", "--seed", s], {"parallel": False}))
+                g.append(("fault injection, crate built without the `parallel` feature", ["--gen", "faults", "--count", "600", "--seed", s], {"parallel": False}))
         else:
             g = [("search:random", ["--gen", "random", "--count", "500", "--seed", s], {}),
                  ("search:faults", ["--gen", "faults", "--count", "200", "--seed", s], {}),
@@ -509,9 +517,9 @@ class PoolSuite(PipeSuite):
     def gens(self, tier, seed, sspec):
         s = str(seed)
         if tier == "thorough":
-            return [("widths 2..16 x {user pool = width, user pool 16, default pool, batch-inner, async, called from a worker of a foreign pool, default pool shared with a narrow batch, user pool attached after the batch was registered, async dispatch+wait called from a worker of a foreign pool, async dispatch twice then wait, default pool driven from a worker of a foreign pool (sync and async)} x 25 dispatches", ["--gen", "all", "--count", "25", "--seed", s], {"shards": 2})]
+            return [("widths 2..16 x {user pool = width, user pool 16, default pool, batch-inner, async, called from a worker of a foreign pool, default pool shared with a narrow batch, user pool attached after the batch was registered, async dispatch+wait called from a worker of a foreign pool, async dispatch twice then wait, default pool driven from a worker of a foreign pool (sync and async), a batch that also holds a nested batch, a stage two batches deep (user pool on the outermost builder only)} x 25 dispatches", ["--gen", "all", "--count", "25", "--seed", s], {"shards": 2})]
         if tier == "quick":
-            return [("widths 2..16 x {user pool = width, user pool 16, default pool, batch-inner, async, called from a worker of a foreign pool, default pool shared with a narrow batch, user pool attached after the batch was registered, async dispatch+wait called from a worker of a foreign pool, async dispatch twice then wait, default pool driven from a worker of a foreign pool (sync and async)} x 3 dispatches", ["--gen", "all", "--count", "3", "--seed", s], {"shards": 2})]
+            return [("widths 2..16 x {user pool = width, user pool 16, default pool, batch-inner, async, called from a worker of a foreign pool, default pool shared with a narrow batch, user pool attached after the batch was registered, async dispatch+wait called from a worker of a foreign pool, async dispatch twice then wait, default pool driven from a worker of a foreign pool (sync and async), a batch that also holds a nested batch, a stage two batches deep (user pool on the outermost builder only)} x 3 dispatches", ["--gen", "all", "--count", "3", "--seed", s], {"shards": 2})]
         return [("search: widths 2,3,5 x all configurations x 6 dispatches", ["--gen", "small", "--count", "6", "--seed", s], {"shards": 2})]
 
 
